@@ -107,7 +107,7 @@ func New() *Sched {
 	if S != nil {
 		S.Shutdown()
 	}
-	s := &Sched{MaxStep: 200000, chans: map[uintptr]*chanMeta{}, inUse: map[any]string{}}
+	s := &Sched{MaxStep: 20000000, chans: map[uintptr]*chanMeta{}, inUse: map[any]string{}}
 	s.driver = newParker()
 	resetPools()
 	S = s
